@@ -4,7 +4,6 @@ NOTES = ('Contract-based deductive verification. ./check <id> extracts the ancho
          '2 = undecided (lost anchor, unsupported construct, solver gave up) and is never reported as a violation.')
 
 NOT_APPLICABLE = {
-    'C05': 'the Quake status parser is lines() / split / join / str::parse over a lossily decoded String: outside the Verus subset and beyond Kani for the same reason as C04. First requests are covered by C09; two Quake defects found while reading (player loop never entered, single-quote line panic) were fixed (DESIGN.md 4.1)',
     'C12': 'wall-clock bounds and kernel socket behaviour are outside what a function contract can state: std::net calls are foreign code to both Verus and Kani (DESIGN.md 3/C12)',
     'C19': 'property is about process stdout/exit status and third-party serializer grammars (serde_json, quick_xml, bson, hex, base64) built on trait objects and fmt; neither verifier reaches them (DESIGN.md 3/C19)',
     'C20': 'the id checker is str iterator chains with Unicode predicates, closures mutating captured state, format!, third-party roman/number-word crates; Verus rejects each construct and Kani only runs a few bytes (DESIGN.md 3/C20)',
@@ -45,6 +44,11 @@ TEXT = {
         'engine': 'verus',
         'level_text': 'PARTIAL: the transport-level and variable-block parts of GameSpy 3 and GameSpy 2. Unbounded proof that a GameSpy 2 reply with the right header is handed on with the index of its body and that its variable block (key/value strings up to an empty key with an empty value) yields exactly those pairs with the cursor left on the closing NUL; that a GameSpy 3 data packet body consisting of any number of key/value strings closed by an empty key decodes to exactly those pairs (a later duplicate key replacing the earlier) plus the untouched remainder, that reply framing (kind, session id) is checked and stripped, and that the packet table holds each packet under its id. NOT decided by any check: GameSpy 1, the GameSpy 2 tables, the GameSpy 3 player / team sections, the typed response fields and the unused-entries rule (str::split / parse / table code outside both verifiers).',
         'level_note': 'A change in GameSpy 1, in data_as_table / get_players / get_teams, in parse_players_and_teams, in has_password or in the field extraction of the three query functions is invisible to this check; see evidence.not_covered.',
+    },
+    'C05': {
+        'technique': 'Verus contract and loop invariant on the real get_players loop of the Quake client (lines as the left inverse of a line encoder, per-line parsing abstract); Kani bounded harness on remove_wrapping_quotes; first-request harnesses of the three Quake clients',
+        'level_text': 'PARTIAL. Unbounded proof that the player section yields one player entry per player line, in order, blank / NUL-only lines excepted, for any number of LF-terminated lines (so the online count equals the number of player lines), errors of a line propagating; bounded Kani check (all strings up to 3 characters over {quote, a}) that wrapping quotes are removed exactly when the token has at least two characters and starts and ends with a quote; the three clients send FF FF FF FF status / getstatus NUL to the given address (Kani, all ports). NOT decided: the server variables (backslash splitting, the named variables, unused entries) and the fields of one player line.',
+        'level_note': 'The remove_wrapping_quotes harness is a bounded stand-in, labelled so in the evidence; how one line is split and parsed is assumed to be a function of its text; a change in get_server_values, in parse_player_string or in client_query is invisible to this check.',
     },
     'C08': {
         'technique': 'Verus contract and loop invariants on the real ValveProtocol::receive (split-packet reassembly): ghost sequence of fragments, concatenation function, insertion-position invariant',
